@@ -3,7 +3,7 @@ CONSTANTS
   BITS = 4
   CAP = 2
   ASIS = FALSE
-  K = 5
-  ALPHA = "core"
+  K = 12
+  ALPHA = "narrow"
 INVARIANT GSPrint
 CHECK_DEADLOCK FALSE
